@@ -207,8 +207,36 @@ class Sym:
     __ror__ = __or__
     def __add__(self, o): return Sym('cat', parts=(self, o))
     def __radd__(self, o): return Sym('cat', parts=(o, self))
+    def __getitem__(self, k): return Sym(f'{self._name}[{k!r}]')
     def __eq__(self, o): return self is o
     def __hash__(self): return id(self)
+
+
+class ZStr:
+    """symbolic str (z3 String); indices are assumed non-negative (Scanner columns)"""
+    def __init__(self, t): self.t = t
+    def __repr__(self): return f'ZStr({self.t})'
+    def __hash__(self): return hash(self.t)
+    def __len__(self): raise OutsideSubset('len() of a symbolic string reached C code (use the len contract)')
+    def length(self): return ZInt(z3.Length(self.t))
+    def __getitem__(self, k):
+        if isinstance(k, slice):
+            if k.step is not None: raise OutsideSubset('slice step')
+            lo = z3.IntVal(0) if k.start is None else _z(k.start)
+            hi = z3.Length(self.t) if k.stop is None else _z(k.stop)
+            # Python slicing for 0 <= lo: '' when lo >= len or hi <= lo, clipped at len -- the same as SubString(s, lo, hi-lo)
+            return ZStr(z3.SubString(self.t, lo, hi - lo))
+        return ZStr(z3.SubString(self.t, _z(k), 1))
+    def _other(self, o):
+        if isinstance(o, ZStr): return o.t
+        if isinstance(o, str): return z3.StringVal(o)
+        return None
+    def __eq__(self, o):
+        t = self._other(o)
+        return False if t is None else ZBool(self.t == t)
+    def __ne__(self, o):
+        t = self._other(o)
+        return True if t is None else ZBool(self.t != t)
 
 
 class CoroCall:
@@ -658,6 +686,12 @@ class Interp:
         if self.on_await is None: raise OutsideSubset('await without oracle')
         return self.on_await(self, self.ev(e.value, env, g))
 
+    def e_Yield(self, e, env, g):
+        # generator functions are linearised: each yielded value is an event of the path; the consumer sends nothing back
+        v = self.ev(e.value, env, g) if e.value is not None else None
+        P().event('yield', v)
+        return None
+
     def e_Starred(self, e, env, g):
         raise OutsideSubset('starred outside call/display')
 
@@ -675,7 +709,7 @@ def _hashable(x):
 
 
 def _symbolic(x, depth=0):
-    if isinstance(x, (ZInt, ZBool, Sym, Acc)): return True
+    if isinstance(x, (ZInt, ZBool, Sym, Acc, ZStr)): return True
     if depth < 2 and isinstance(x, (tuple, list)):
         return any(_symbolic(y, depth + 1) for y in x)
     if depth < 2 and hasattr(x, '__dataclass_fields__') and not inspect.isclass(x):
